@@ -85,6 +85,14 @@ def resolved_calls(m, fn):
             r = m.resolve_name(fn, f.id)
             if isinstance(r, M.FunctionInfo) and r.cls is None:
                 callee = r
+        elif isinstance(f, ast.Attribute) and isinstance(f.value, (ast.Name, ast.Attribute)):
+            root = f.value
+            while isinstance(root, ast.Attribute):
+                root = root.value
+            if isinstance(root, ast.Name) and root.id not in E._locals(fn):
+                r = m.resolve_expr(fn, f)            # ClassName.method(...) / module.function(...)
+                if isinstance(r, M.FunctionInfo):
+                    callee = r
         if callee is not None and callee is not fn:
             out.append((c, callee))
     return out
